@@ -2,7 +2,7 @@
     arguments already hex-decoded by the OCaml driver, result printed as one
     canonical line.  The Go (and C++) drivers print the same lines from the
     implementation.  No proofs. *)
-From GFS Require Import Base Dec Regex GenRegex GenPadTables Ranges Pad FrameSet Compress Path Seq Listing Seqinfo Export GenStorage SpecRange SpecSeq.
+From GFS Require Import Base Dec Regex GenRegex GenPadTables Ranges Pad FrameSet Compress Path Seq Listing Seqinfo Seqls Export GenStorage SpecRange SpecSeq.
 Local Open Scope Z_scope.
 
 Definition hexd (n : nat) : byte := if Nat.ltb n 10 then (48 + n)%nat else (87 + n)%nat.
@@ -232,6 +232,25 @@ Definition dispatch (args : list bytes) : bytes :=
                kz "end" (sr_end r) ++ kz "length" (sr_len r) ++ kz "zfill" (sr_zfill r) ++ kb "hasRange" (sr_hasrange r)
         | other => outcome_tag other
         end
+      | _ => s2b "BADARGS"
+      end
+    else if beq op (s2b "seqls") then
+      (* flags cwd nargs arg... node...; node = kind|parent|name|target with kind D F LF LD LX *)
+      match rest with
+      | flags :: cwd :: nargs :: more =>
+        let n := Z.to_nat (argz nargs) in
+        let args := firstn n more in
+        let nodes := skipn n more in
+        let has (c : byte) := existsb (Nat.eqb c) flags in
+        let f := mkSF (has 114%nat) (has 97%nat) (has 115%nat) (has 49%nat) (has 102%nat) in
+        let parse_node (s : bytes) : tnode :=
+            match split_on 124%nat s with
+            | [k; p; nm; tg] =>
+              mkTN p nm (if beq k (s2b "D") then KDir else if beq k (s2b "F") then KFile
+                         else if beq k (s2b "LF") then KLinkFile else if beq k (s2b "LD") then KLinkDir else KLinkDangling) tg
+            | _ => mkTN [] s KFile []
+            end in
+        s2b "OK" ++ flat_map (fun l => sp ++ hexs l) (seqls_lines f cwd (map parse_node nodes) args)
       | _ => s2b "BADARGS"
       end
     else if beq op (s2b "c20") then
